@@ -862,6 +862,42 @@ func runScopePairEval(c *Ctx, r *Reporter) {
 							okp = true
 						}
 					}
+					// pushFuncScope written out in place: e.scope = newInnerScope(e.global), with a deferred closure
+					// that puts a scope back
+					if !okp {
+						fresh, restored := false, false
+						for _, b3 := range fn.Blocks {
+							for _, ins3 := range b3.Instrs {
+								switch x := ins3.(type) {
+								case *ssa.Store:
+									if fa, ok := x.Addr.(*ssa.FieldAddr); ok {
+										if named, name := fieldAddrInfo(fa); named != nil && named.Obj().Name() == "Evaluator" && name == "scope" {
+											if nc, ok := x.Val.(*ssa.Call); ok && nc.Call.StaticCallee() != nil && nc.Call.StaticCallee().Name() == "newInnerScope" && len(nc.Call.Args) == 1 && loadsField(nc.Call.Args[0], "global") && instrDominates(x, c2) {
+												fresh = true
+											}
+										}
+									}
+								case *ssa.Defer:
+									if mc, ok := x.Call.Value.(*ssa.MakeClosure); ok && instrDominates(x, c2) {
+										if af, ok := mc.Fn.(*ssa.Function); ok {
+											for _, ab := range af.Blocks {
+												for _, ai := range ab.Instrs {
+													if st, ok := ai.(*ssa.Store); ok {
+														if fa, ok := st.Addr.(*ssa.FieldAddr); ok {
+															if _, name := fieldAddrInfo(fa); name == "scope" {
+																restored = true
+															}
+														}
+													}
+												}
+											}
+										}
+									}
+								}
+							}
+						}
+						okp = fresh && restored
+					}
 					r.Check(okp, construct, p.Rel(instrPos(c2)), "function/handler body runs under pushFuncScope", "a function or handler body is evaluated without a dominating pushFuncScope: it would see the caller's locals")
 					continue
 				}
